@@ -18,8 +18,15 @@ def handle (op : String) (j : Json) : Except String Json := do
     let mode := if (← getStr j "mode") == "carry" then Mode.carry else Mode.seek
     let file ← getNatList j "file"
     let k ← getNat j "k"
-    let cs := readAll F true mode file k
-    pure (reply (Json.mkObj [("chunks", natListList cs)]) (some (Json.mkObj [("flat", natList (norm file))])))
+    match (j.getObjValAs? Nat "cap").toOption with
+    | some cap =>
+      -- max_chunk_size given: the read may refuse; when it completes it must deliver the whole file
+      match readAllCap F true mode file k cap with
+      | some cs => pure (reply (Json.mkObj [("chunks", natListList cs)]) (some (Json.mkObj [("flat", natList (norm file))])))
+      | none => pure (reply (Json.mkObj [("err", str "cap")]) (some (Json.mkObj [("err", str "cap")])))
+    | none =>
+      let cs := readAll F true mode file k
+      pure (reply (Json.mkObj [("chunks", natListList cs)]) (some (Json.mkObj [("flat", natList (norm file))])))
   | "whole" =>
     let F ← fmtOf (← getStr j "fmt")
     let file ← getNatList j "file"
